@@ -21,10 +21,24 @@ def run(chk):
         rep["nontrivial"] = rep["counters"].get("nt_C04", 0)
         chk.add_report(f"d3-loose-constraints:{kind}", rep)
         chk.classify("tracker", args, rep)
+    # batches of several scenes are served by several voting threads at once (seeded delays at the hook sites move the
+    # threads against each other): a batch call that panics although one-scene batches of the same alphabet do not
+    # is interference between the scenes of a batch
+    quick = chk.tier == "quick"
+    rb1, cb1 = tc.generate(chk, "batch-d2-one-scene", depth=2, kind="batch", MaxIdle=0, MaxDets=1, Scenes={1})
+    rb2, cb2 = tc.generate(chk, "batch-d2", depth=2, kind="batch", MaxIdle=0, MaxDets=1)
+    for kind in ("batchsort", "batchvisual"):
+        base = vlib.run_vh(tc.vh_args(cb1, kind, 2, "all", voters=2) + ["--delay-us", "300", "--seed", str(chk.seed)], [rb1.out])
+        args = tc.vh_args(cb2, kind, 2, "C04", voters=2) + ["--delay-us", "300", "--seed", str(chk.seed)]
+        rep = vlib.run_vh(args, [rb2.out], stride=4 if (quick and rb2.generated > 30000) else 1)
+        rep["nontrivial"] = rep["counters"].get("nt_C04", 0)
+        chk.add_report(f"batch-d2:{kind}", rep)
+        if f"{kind}:panic" in base["by_sig"]:
+            rep["by_sig"].pop(f"{kind}:panic:multi-scene-batch", None)
+        chk.classify("tracker", args, rep)
     # VisualSORT batches with own-area gates: what a scene gets must not depend on the other scenes of its batch.
     # Disagreements that the one-scene batches show as well are not scene interference.
     vkw = dict(depth=5, Sim=12, OwnUse=50, OwnCollect=50, Kind="batch", Slots={1, 2}, Confs={900, 800}, Feats={1}, Quals={90}, MaxDets=2)
-    quick = chk.tier == "quick"
     r1, c1 = tc.generate_visual(chk, "v-own-one-scene", simulate={"num": 10 if quick else 100, "depth": 6}, Scenes={1}, **vkw)
     base = tc.replay_visual(chk, "v-own-one-scene", r1, c1, "batchvisual", 2, "all", "nt_C04", extra=[])
     base_sigs = set(base["by_sig"])
